@@ -146,7 +146,23 @@ def _quantifier_conds(c: Term, ev=None):
 
 
 def _items_gen(pat: Term, it: Term):
-    """`for k, v in d.items()` reads d[k] for every key k of d: (k, d, {v: d[k]}) or None."""
+    """`for k, v in d.items()` reads d[k] for every key k of d: (k, d, {v: d[k]}) or None.
+    `for i, x in enumerate(S)` (with S indexable) reads S[i] for every position: (i, range(len(S)), {x: S[i]})."""
+    if it[0] == "call" and it[1] == "enumerate" and len(it[2]) == 1 and not it[3] and pat[0] == "tuplelit" and len(pat[1]) == 2 and pat[1][0][0] == "var":
+        i, x = pat[1]
+        S = it[2][0]
+        m: dict = {}
+
+        def bind(p_, val):
+            if p_[0] == "var":
+                m[p_] = val
+                return True
+            if p_[0] == "tuplelit":
+                return all(bind(q_, ("index", val, ("const", j))) for j, q_ in enumerate(p_[1]))
+            return False
+
+        if S[0] in ("var", "attr", "index") and bind(x, ("index", S, i)):
+            return i, ("call", "range", (("len", S),), ()), m
     if it[0] == "meth" and it[2] == "items" and not it[3] and not it[4] and pat[0] == "tuplelit" and len(pat[1]) == 2 \
             and pat[1][0][0] == "var" and pat[1][1][0] == "var":
         k, v = pat[1]
@@ -306,6 +322,9 @@ def _structural(t: Any) -> bool:
     if not t or not isinstance(t[0], str):
         return True
     h = t[0]
+    if h == "accum" and len(t) > 5 and t[5] == ("const", True):
+        # an accumulation loop that can stop early leaves elements out: that is a difference in WHAT is collected, not in how it is written
+        return False
     if h in STRUCTURAL_HEADS:
         return True
     if h == "call" and isinstance(t[1], str) and t[1].split(".")[-1] in STRUCTURAL_CALLS:
@@ -373,6 +392,21 @@ def guarded_equal(x: Any, y: Any, guard, sa: SetAlg, depth: int = 0) -> bool:
         def setlike(t):
             return sa.is_setexpr(t) or t[0] == "bigunion" or (t[0] == "accum" and t[1] == "union")
 
+        def listy(t):
+            return (t[0] == "comp" and t[1] in ("list", "gen")) or (t[0] == "accum" and t[1] == "concat") or t[0] == "concat"
+
+        def loop_built(t):
+            return t[0] == "accum" and t[1] == "concat"
+
+        if (listy(xs) and listy(ys) and (loop_built(xs) or loop_built(ys))) or (setlike(xs) and listy(ys)) or (listy(xs) and setlike(ys)):
+            # a list filled by a loop is read by its elements (the evaluator's abstraction of such loops): compare the other side the same way
+            e = ("var", "§elem")
+            mx, my = sa.member(e, xs), sa.member(e, ys)
+            try:
+                return (satisfy(f_and(guard, norm_formula(mx), f_not(norm_formula(my)))) is None
+                        and satisfy(f_and(guard, norm_formula(my), f_not(norm_formula(mx)))) is None)
+            except TooManyAtoms:
+                return False
         if setlike(xs) and setlike(ys):
             e = ("var", "§elem")
             mx, my = sa.member(e, xs), sa.member(e, ys)
